@@ -24,7 +24,9 @@ EXPLANATION = (
     "divided by nBlocks - 1; reject_outliers measures deviations from the median of the very column it "
     "tests and returns the mask it filters with; the driver applies that mask to the per-block density "
     "matrices and filters on the observable column exactly when an observable is sampled; "
-    "jackknife_ratios removes sample i from both means and divides both by n - 1."
+    "jackknife_ratios removes sample i from both means and divides both by n - 1. "
+    "reject_outliers tests the absolute (two-sided) deviation; in the driver every array paired with "
+    "filtered weights carries the mask of the same reject_outliers call. "
 )
 NOT_DECIDED = "statistical validity of the error bar, plateau detection, behaviour on autocorrelated series."
 TECHNIQUE = "static analysis: degree-of-homogeneity / shift typing over the AST, def-use pairing rules"
